@@ -458,6 +458,10 @@ func (s *ServerSession) doCreateStream(tid int, stream *Stream) error {
 }
 
 func (s *ServerSession) doPublish(tid int, stream *Stream) (err error) {
+	// 一个session只能publish或者play一次（第二次modConnProps会panic，上层也会被重复通知）
+	if s.sessionStat.BaseType() != base.SessionBaseTypePubSubStr {
+		return nazaerrors.Wrap(base.ErrRtmpUnexpectedMsg)
+	}
 	if err = stream.msg.readNull(); err != nil {
 		return err
 	}
@@ -499,6 +503,10 @@ func (s *ServerSession) doPublish(tid int, stream *Stream) (err error) {
 }
 
 func (s *ServerSession) doPlay(tid int, stream *Stream) (err error) {
+	// 一个session只能publish或者play一次（第二次modConnProps会panic，上层也会被重复通知）
+	if s.sessionStat.BaseType() != base.SessionBaseTypePubSubStr {
+		return nazaerrors.Wrap(base.ErrRtmpUnexpectedMsg)
+	}
 	if err = stream.msg.readNull(); err != nil {
 		return err
 	}
